@@ -8,17 +8,20 @@ package c14
 import (
 	"context"
 	"database/sql/driver"
+	"encoding/json"
 	"fmt"
 	"io"
 	"math/rand"
 	"net/http"
 	"net/url"
+	"os"
 	"regexp"
 	"sort"
 	"strings"
 	"sync"
 	"time"
 
+	"verif/harness/engines/chsql"
 	"verif/harness/engines/logq"
 	"verif/harness/engines/run"
 	"verif/harness/engines/sqldrv"
@@ -33,6 +36,10 @@ func init() {
 type childCfg struct {
 	Start int `json:"start"`
 	N     int `json:"n"`
+	// History != "": the child translates the fixed request list of the history monitor in that order
+	// ("forward" | "reverse" | "rotated") and writes the statements of every request to Out
+	History string `json:"history,omitempty"`
+	Out     string `json:"out,omitempty"`
 }
 
 func Main(c *run.Ctx) {
@@ -47,6 +54,116 @@ func Main(c *run.Ctx) {
 	c.Floor("plans re-executed with advancing windows", total/4, 0)
 	c.Floor("TraceQL requests handled by the multi-portion processor", 3, 0)
 	c.Floor("concurrent translation rounds", 1, 0)
+	historyMonitor(c)
+}
+
+// historyMonitor: a request's statements must not depend on which requests the process translated before it.
+// Three fresh processes translate the same request list in different orders; per request the statements of the
+// three processes must be identical. (Process-wide caches keyed too coarsely show up here and nowhere else.)
+func historyMonitor(c *run.Ctx) {
+	res := map[string]map[string][]string{}
+	for _, order := range []string{"forward", "reverse", "rotated"} {
+		outp := fmt.Sprintf("%s/c14-history-%s.json", run.Scratch(), order)
+		out := c.RunChild(run.ChildSpec{Prop: "C14", Name: "history-" + order, Cfg: childCfg{History: order, Out: outp}, Timeout: 10 * time.Minute})
+		if !out.Completed {
+			c.Undecided("history child " + order + " did not complete")
+			return
+		}
+		b, err := os.ReadFile(outp)
+		m := map[string][]string{}
+		if err != nil || json.Unmarshal(b, &m) != nil {
+			c.Undecided("history child " + order + " left no result")
+			return
+		}
+		res[order] = m
+	}
+	for name, ref := range res["forward"] {
+		c.Case("history|" + name)
+		c.Floor("requests translated after different histories in separate processes", 0, 1)
+		for _, order := range []string{"reverse", "rotated"} {
+			got := res[order][name]
+			if !eqs(ref, got) {
+				c.Violation("history/sql-depends-on-earlier-requests/"+strings.SplitN(name, " ", 2)[0], fmt.Sprintf("request %s: its statements differ between a process that translated the request list forward and one that translated it %s: %s", name, order, firstDiff(ref, got)),
+					map[string]any{"request": name, "forward": ref, order: got})
+				break
+			}
+		}
+	}
+	c.Floor("requests translated after different histories in separate processes", 20, 0)
+}
+
+type histReq struct {
+	Name string
+	Do   func(tq *traceRig, rn *logq.Runner, ch *chsql.DB) []string
+}
+
+func historyRequests(c *run.Ctx) []histReq {
+	var out []histReq
+	// Pyroscope: profile types that share name and period but differ in sample type, and unrelated ones
+	types := []string{"process_cpu:cpu:nanoseconds:cpu:nanoseconds", "process_cpu:samples:count:cpu:nanoseconds", "memory:alloc_objects:count:space:bytes", "memory:inuse_space:bytes:space:bytes",
+		"memory:alloc_space:bytes:space:bytes", "goroutine:goroutine:count:goroutine:count", "block:contentions:count:contentions:count", "block:delay:nanoseconds:contentions:count"}
+	for _, tid := range types {
+		tid := tid
+		for _, ep := range []string{"SelectMergeStacktraces", "SelectSeries", "SelectMergeProfile"} {
+			ep := ep
+			body := `{"profile_typeID":"` + tid + `","label_selector":"{service_name=\"x\"}","start":1700000000000,"end":1700003600000,"group_by":["a"],"step":15}`
+			out = append(out, histReq{"pyroscope " + ep + " " + tid, func(tq *traceRig, rn *logq.Runner, ch *chsql.DB) []string {
+				s, _ := tq.post("/querier.v1.QuerierService/"+ep, body)
+				return s
+			}})
+		}
+	}
+	for _, q := range []string{`{.a = "x"}`, `{.a = "y"}`, `{.a = "x" && duration > 1s}`, `{name = "op"} | count() > 1`, `{.a = "x"} || {.b = "y"}`, `{resource.service.name = "api"}`} {
+		q := q
+		out = append(out, histReq{"traceql " + q, func(tq *traceRig, rn *logq.Runner, ch *chsql.DB) []string {
+			s, _ := tq.search(q, 0)
+			return s
+		}})
+	}
+	r := c.Rng("c14/history")
+	start := int64(1700000000) / 60 * 60 * 1e9
+	o := logq.GenOpts{JSONLines: true, MaxSeries: 4, MaxSamples: 6, StartNs: start, EndNs: start + 300e9, Numeric: true}
+	db := logq.NewDB(r, o)
+	for k := 0; k < 30; k++ {
+		req := genReq(r, db, o, k%3)
+		out = append(out, histReq{fmt.Sprintf("logql %d %s", k, req.QueryString()), func(tq *traceRig, rn *logq.Runner, ch *chsql.DB) []string {
+			return sqls(rn.Run(ch, &req, 20*time.Second))
+		}})
+	}
+	histDB = db
+	return out
+}
+
+var histDB *logq.DB
+
+func childHistory(c *run.Ctx, cfg childCfg) {
+	reqs := historyRequests(c)
+	rn := logq.NewRunner(false, true)
+	tq := newTraceRig()
+	ch := histDB.Load(false)
+	order := make([]int, len(reqs))
+	for i := range order {
+		order[i] = i
+	}
+	switch cfg.History {
+	case "reverse":
+		for i, j := 0, len(order)-1; i < j; i, j = i+1, j-1 {
+			order[i], order[j] = order[j], order[i]
+		}
+	case "rotated":
+		h := len(order) / 2
+		order = append(order[h:], order[:h]...)
+		// and neighbours swapped, so that members of one family meet in the other order
+		for i := 0; i+1 < len(order); i += 2 {
+			order[i], order[i+1] = order[i+1], order[i]
+		}
+	}
+	res := map[string][]string{}
+	for _, i := range order {
+		res[reqs[i].Name] = reqs[i].Do(tq, rn, ch)
+	}
+	b, _ := json.Marshal(res)
+	os.WriteFile(cfg.Out, b, 0644)
 }
 
 func sqls(out *logq.Output) []string {
@@ -128,6 +245,10 @@ var digits = regexp.MustCompile(`[0-9]+`)
 func Child(c *run.Ctx, name string) {
 	var cfg childCfg
 	run.ChildCfg(&cfg)
+	if cfg.History != "" {
+		childHistory(c, cfg)
+		return
+	}
 	rn := logq.NewRunner(false, true)
 	tq := newTraceRig()
 	for i := 0; i < cfg.N; i++ {
